@@ -11,6 +11,7 @@ import (
 	"crypto/rand"
 	"encoding/binary"
 	"fmt"
+	"os"
 	"strings"
 
 	"verifharness/core"
@@ -510,6 +511,12 @@ func (w *world) phase(st *Step) *PhaseObs {
 			snd.StartMessage()
 		case "secret":
 			err = snd.PutSecret(bg, string(op.D.Bytes()))
+		case "putfile":
+			var path string
+			if path, err = tempFile(op.D.Bytes()); err == nil {
+				_, err = snd.PutFile(bg, path)
+				os.Remove(path)
+			}
 		case "setcrypto":
 			if !snd.SetCryptoMode(op.B) {
 				err = fmt.Errorf("SetCryptoMode refused")
@@ -578,6 +585,20 @@ func (w *world) phase(st *Step) *PhaseObs {
 		}
 	}
 	return po
+}
+
+// tempFile creates a scratch file holding b and returns its path.
+func tempFile(b []byte) (string, error) {
+	f, err := os.CreateTemp("", "vh-file-*")
+	if err != nil {
+		return "", err
+	}
+	defer f.Close()
+	if _, err := f.Write(b); err != nil {
+		os.Remove(f.Name())
+		return "", err
+	}
+	return f.Name(), nil
 }
 
 func (w *world) materialize(hist []RawFrame, e EditItem) []byte {
@@ -652,6 +673,21 @@ func doRecv(s *stream.Stream, op ROp) (r RRes) {
 			return RRes{Err: err.Error()}
 		}
 		r.OK, r.Data = true, d
+	case "getfile":
+		path, err := tempFile(nil)
+		if err != nil {
+			return RRes{Err: err.Error()}
+		}
+		defer os.Remove(path)
+		n, err := s.GetFile(bg, path)
+		if err != nil {
+			return RRes{Err: err.Error()}
+		}
+		d, err := os.ReadFile(path)
+		if err != nil || int64(len(d)) != n {
+			return RRes{Err: fmt.Sprintf("GetFile reported %d bytes, the file holds %d (%v)", n, len(d), err)}
+		}
+		r.OK, r.Data = true, d
 	case "msgall":
 		m := message.NewMessageFromStream(s)
 		d, err := m.GetRemainingBytes(bg)
@@ -717,6 +753,8 @@ func sopTerm(o SOp) string {
 }
 func ropTerm(o ROp) string {
 	switch o.Op {
+	case "getfile":
+		return "RGetFile"
 	case "complete":
 		return "RComplete"
 	case "msgall":
@@ -780,6 +818,13 @@ func phaseTerm(st *Step, po *PhaseObs) string {
 			rr = append(rr, fmt.Sprintf("ROk %s %d", xb(r.Data), r.Flag))
 		}
 	}
+	sops, serrs := core.List(so), core.List(se)
+	if len(st.SOps) == 1 && st.SOps[0].Op == "putfile" {
+		// PutFile(d) is the model's message sequence file_msgs d, each sent with SendMessage;
+		// the executor requires it to succeed (see Exec)
+		sops = "(map OSend (file_msgs " + st.SOps[0].D.Term() + "))"
+		serrs = "(map (fun _ => " + se[0] + ") (file_msgs " + st.SOps[0].D.Term() + "))"
+	}
 	edit := "None"
 	if st.HasEdit {
 		edit = "(Some " + core.List(po.Edited) + ")"
@@ -788,7 +833,7 @@ func phaseTerm(st *Step, po *PhaseObs) string {
 	if st.NoWire {
 		wire = "None"
 	}
-	return fmt.Sprintf("StPhase %s %s %s %s %s %s %s", core.Bool(st.ASends), core.List(so), core.List(se), wire, edit, core.List(ro), core.List(rr))
+	return fmt.Sprintf("StPhase %s %s %s %s %s %s %s", core.Bool(st.ASends), sops, serrs, wire, edit, core.List(ro), core.List(rr))
 }
 
 // first-frame digest terms are filled in by Exec through these fields
